@@ -315,4 +315,14 @@ theorem admit_sound_full (c : Chain) (p : Pool) (t : Tx)
         · simp only [Bool.not_eq_true, Bool.not_eq_false'] at hattr
           simpa [verifyAttrs, List.all_eq_true] using hattr
 
+theorem allDistinct_nodup : ∀ (l : List Nat), allDistinct l = true → l.Nodup := by
+  intro l
+  induction l with
+  | nil => intro _; exact List.nodup_nil
+  | cons a l ih =>
+    intro h
+    simp only [allDistinct, Bool.and_eq_true, Bool.not_eq_true', List.contains_eq_mem, decide_eq_false_iff_not] at h
+    exact List.nodup_cons.mpr ⟨h.1, ih h.2⟩
+
+
 end NeoModel.Admission
